@@ -71,6 +71,7 @@ impl Ctx {
             "c05_comparisons": self.c05.comparisons,
             "c05_equal_pairs": self.c05.equal_pairs,
             "c05_cross_layout_equal_pairs": self.c05.cross_layout_equal_pairs,
+            "c19m_medium_steps_by_fault_kind": self.c19m.by_fault,
             "c19m_medium_steps": self.c19m.medium_steps,
             "c19m_decoded_ok": self.c19m.decoded_ok,
             "c19m_thirdparty_panics_inconclusive": self.c19m.thirdparty_panics,
